@@ -70,57 +70,61 @@ pose Q := row' om (col' om1 A).
 have detA' : \det A' = nth 0 vec l.+1 * \det P + (- g l.+1 l) * \det Q.
   rewrite -(det_tr A') -(det_tr P) -(det_tr Q).
   apply: (@determinant_multilinear _ _ A'^T P^T Q^T ord_max).
-  - apply/rowP => i; rewrite !mxE /= ltnn /bump leqNgt ltn_ord /= add0n.
-    rewrite leqnn ltnSn add1n ltnn hvec' //; last by rewrite -ltnS ltn_ord.
+  - apply/rowP => i; rewrite !mxE /= ltnn /bump.
+    have il : (l < i)%N = false by rewrite ltnNge -ltnS ltn_ord.
+    rewrite ltnn leqnn il /= !add0n add1n ltnSn ltnn hvec'; last by rewrite -ltnS ltn_ord.
     by rewrite mulNr [g i l * _]mulrC [nth 0 vec i * _]mulrC.
-  - apply/matrixP => i j; rewrite !mxE /= /bump !leqNgt !ltn_ord /= !add0n.
-    by rewrite ltn_ord (ltn_trans (ltn_ord j)) // (leq_trans (ltn_ord i)).
-  - apply/matrixP => i j; rewrite !mxE /= /bump !leqNgt !ltn_ord /= !add0n.
-    rewrite (ltn_trans (ltn_ord j)) //= add0n ltn_ord.
-    by rewrite (leq_trans (ltn_ord i)).
+  - apply/matrixP => i j; rewrite !mxE /= /bump.
+    have il : (l <= i)%N = false by rewrite leqNgt ltn_ord.
+    have jl : (l < j)%N = false by rewrite ltnNge -ltnS ltn_ord.
+    have il' : (l < i)%N = false by rewrite ltnNge ltnW // ltn_ord.
+    by rewrite il jl /= !add0n il' /= add0n ltn_ord ltnS ltnW // ltn_ord.
+  - apply/matrixP => i j; rewrite !mxE /= /bump.
+    have il : (l <= i)%N = false by rewrite leqNgt ltn_ord.
+    have jl : (l < j)%N = false by rewrite ltnNge -ltnS ltn_ord.
+    by rewrite il jl /= !add0n il /= add0n ltn_ord ltnS ltnW // ltn_ord.
 rewrite detA' (expand_det_row A om) big_ord_recr big_ord_recr /=.
 rewrite big1 ?add0r; last first.
   by move=> i _; rewrite mxE /= (leq_trans (ltn_ord i)) // hess ?mul0r.
 rewrite /cofactor !mxE /= ltnSn ltnn -/om -/om1 -/P -/Q.
-rewrite addnn -signr_odd odd_double expr0 mul1r.
-rewrite -signr_odd addnS addnn /= odd_double /= expr1 mulN1r.
-by rewrite mulrN mulNr addrC.
+have -> : (-1) ^+ (l.+1 + l.+1) = 1 :> R by rewrite addnn -signr_odd odd_double.
+have -> : (-1) ^+ (l.+1 + l) = -1 :> R by rewrite addSn addnn -signr_odd oddS odd_double.
+by rewrite mul1r mulN1r mulrN mulNr addrC.
 Qed.
 
 (* ---- the loop ------------------------------------------------------------ *)
 
-Variables (n : nat) (Hl : seq R) (s : R).
+Variables (n : nat) (h : nat -> nat -> R) (s : R).
 
 (* entries of H - s.I as read by the code *)
-Definition hsf (i j : nat) : R :=
-  if i == j then elem rops Hl n i i - s else elem rops Hl n i j.
+Definition hsf (i j : nat) : R := if i == j then h i i - s else h i j.
 
-Lemma coefE l i : coef rops Hl n s l.+1 i = hsf i l.
+Lemma coefE l i : coef rops h s l.+1 i = hsf i l.
 Proof.
 rewrite /coef /hsf /= -/(Nat.eqb i l).
 have -> : Nat.eqb i l = (i == l) by elim: i l => [|i IH] [|l] //=.
 by case: eqP => // ->.
 Qed.
 
-Lemma elem_sub l : elem rops Hl n l.+1 l = hsf l.+1 l.
+Lemma elem_sub l : h l.+1 l = hsf l.+1 l.
 Proof. by rewrite /hsf -[_ == _]/(l.+1 == l) gtn_eqF. Qed.
 
-Lemma size_step l (vec : seq R) : size vec = l.+1 -> size (step rops Hl n s l vec) = l.
+Lemma size_step l (vec : seq R) : size vec = l.+1 -> size (step rops h s l vec) = l.
 Proof. by move=> sv; rewrite /step size_compress sv; apply/minn_idPl. Qed.
 
 Lemma nth_step l (vec : seq R) i :
   size vec = l.+2 -> (i <= l)%N ->
-  nth 0 (step rops Hl n s l.+1 vec) i = hsf i l * nth 0 vec l.+1 - nth 0 vec i * hsf l.+1 l.
+  nth 0 (step rops h s l.+1 vec) i = hsf i l * nth 0 vec l.+1 - nth 0 vec i * hsf l.+1 l.
 Proof.
 move=> sv il; rewrite /step nth_compress ?sv ?ltnS // ?(leq_trans il) //.
-by rewrite add0n coefE nthdE elem_sub.
+by rewrite add0n coefE nthdE -elem_sub.
 Qed.
 
 Hypothesis hess : forall i j, (j.+1 < i)%N -> (i < n)%N -> hsf i j = 0.
 
 Lemma loop_det l (vec : seq R) :
   (l < n)%N -> size vec = l.+1 ->
-  nth 0 (loop rops Hl n s l vec) 0 = \det (Mat hsf l vec).
+  nth 0 (loop rops h s l vec) 0 = \det (Mat hsf l vec).
 Proof.
 elim: l vec => [|l IH] vec ln sv /=; first by rewrite det_Mat0.
 rewrite IH ?size_step //; last exact: ltnW.
@@ -140,9 +144,26 @@ Variable R : comRingType.
 Definition upper_hessenberg m (H : 'M[R]_m) :=
   forall i j : 'I_m, (j.+1 < i)%N -> H i j = 0.
 
+(* the accessor h reads the entries of H *)
+Definition reads m (h : nat -> nat -> R) (H : 'M[R]_m) :=
+  forall i j : 'I_m, h i j = H i j.
+
 (* Hl is the row-major storage of H (MPS_MATRIX_ELEM) *)
 Definition row_major m (Hl : seq R) (H : 'M[R]_m) :=
   forall i j : 'I_m, nth 0 Hl (i * m + j) = H i j.
+
+(* rows is the list of the rows of H *)
+Definition rows_of m (rows : seq (seq R)) (H : 'M[R]_m) :=
+  forall i j : 'I_m, nth 0 (nth [::] rows i) j = H i j.
+
+Lemma row_major_reads m Hl (H : 'M[R]_m) : row_major Hl H -> reads (elem (rops R) Hl m) H.
+Proof. by move=> rm i j; rewrite /elem nthdE; exact: rm. Qed.
+
+Lemma nth_rowE (rows : seq (seq R)) i : nth_row rows i = nth [::] rows i.
+Proof. by elim: rows i => [|r t IH] [|i] //=. Qed.
+
+Lemma rows_of_reads m rows (H : 'M[R]_m) : rows_of rows H -> reads (elem_rows (rops R) rows) H.
+Proof. by move=> ro i j; rewrite /elem_rows nthdE nth_rowE; exact: ro. Qed.
 
 Definition rowmajor_of m (H : 'M[R]_m) : seq R :=
   mkseq (fun k => if insub (k %/ m)%N is Some i then
@@ -152,58 +173,81 @@ Lemma rowmajor_ofP m (H : 'M[R]_m) : row_major (rowmajor_of H) H.
 Proof.
 move=> i j; have m0 : (0 < m)%N by apply: leq_ltn_trans (ltn_ord i).
 rewrite nth_mkseq; last first.
-  by rewrite -[X in (_ < X * _)%N](@ltn_predK i m) // mulSn addnC ltn_add2r
-             ?ltn_ord // -ltnS ?prednK //; rewrite leq_add // ?ltn_ord // leq_mul2r
-             -ltnS prednK // ltn_ord orbT.
+  apply: (@leq_trans (i.+1 * m)%N); last by rewrite leq_mul2r ltn_ord orbT.
+  by rewrite mulSn [(m + _)%N]addnC ltn_add2l.
 rewrite divnMDl // modnMDl divn_small ?ltn_ord // addn0 modn_small ?ltn_ord //.
 by rewrite !insubT ?ltn_ord // => p q; congr (H _ _); apply: val_inj.
 Qed.
 
-Lemma hsf_mx m (H : 'M[R]_m) Hl s (i j : 'I_m) :
-  row_major Hl H -> hsf m Hl s i j = (H - s%:M) i j.
+Lemma hsf_mx m (H : 'M[R]_m) h s (i j : 'I_m) :
+  reads h H -> hsf h s i j = (H - s%:M) i j.
 Proof.
-move=> rm; rewrite /hsf /elem !nthdE !mxE -val_eqE /= !rm.
+move=> rd; rewrite /hsf !mxE -val_eqE /= !rd.
 by case: eqP => [/val_inj->|_]; rewrite ?eqxx ?mulr1n // mulr0n subr0.
 Qed.
 
-Theorem hess_rec_is_det m (H : 'M[R]_m.+1) (Hl : seq R) (s : R) :
-  upper_hessenberg H -> row_major Hl H ->
-  hess_rec (rops R) Hl m.+1 s = \det (H - s%:M).
+Lemma hsf_hess m (H : 'M[R]_m.+1) h s :
+  upper_hessenberg H -> reads h H ->
+  forall i j, (j.+1 < i)%N -> (i < m.+1)%N -> hsf h s i j = 0.
 Proof.
-move=> uh rm; rewrite /hess_rec /= nthdE.
-have hz : forall i j, (j.+1 < i)%N -> (i < m.+1)%N -> hsf m.+1 Hl s i j = 0.
-  move=> i j ji im.
-  have jm : (j < m.+1)%N by apply: ltn_trans im; apply: ltn_trans ji.
-  rewrite (hsf_mx s (Ordinal im) (Ordinal jm) rm) !mxE (uh _ _ ji) /=.
-  by rewrite -val_eqE /= gtn_eqF ?mulr0n ?subr0 // (ltn_trans _ ji).
-rewrite (loop_det hz) ?size_mkvec //.
+move=> uh rd i j ji im.
+have jm : (j < m.+1)%N by apply: ltn_trans im; apply: ltn_trans ji.
+rewrite (hsf_mx s (Ordinal im) (Ordinal jm) rd) !mxE (uh (Ordinal im) (Ordinal jm) ji) /=.
+by rewrite -val_eqE /= gtn_eqF ?mulr0n ?subr0 // (ltn_trans _ ji).
+Qed.
+
+Theorem hess_rec_acc_is_det m (H : 'M[R]_m.+1) h (s : R) :
+  upper_hessenberg H -> reads h H ->
+  hess_rec_acc (rops R) h m.+1 s = \det (H - s%:M).
+Proof.
+move=> uh rd; rewrite /hess_rec_acc /= nthdE.
+rewrite (loop_det (hsf_hess s uh rd)) ?size_mkvec //.
 congr (\det _); apply/matrixP => i j; rewrite mxE.
 case: ltnP => jm; first exact: hsf_mx.
 have jE : j = ord_max by apply: val_inj; apply/eqP; rewrite eqn_leq jm -ltnS ltn_ord.
-rewrite nth_mkvec ?ltn_ord // add0n coefE jE; exact: (hsf_mx s i ord_max rm).
+rewrite nth_mkvec ?ltn_ord // add0n coefE jE; exact: (hsf_mx s i ord_max rd).
 Qed.
 
-(* the DPE variant as coded: shift missing on the last diagonal entry *)
-Theorem dhess_coded_is_det m (H : 'M[R]_m.+1) (Hl : seq R) (s : R) :
+(* the C storage convention *)
+Theorem hess_rec_is_det m (H : 'M[R]_m.+1) (Hl : seq R) (s : R) :
   upper_hessenberg H -> row_major Hl H ->
-  dhess_rec_coded (rops R) Hl m.+1 s
-  = \det (\matrix_(i, j) (H i j - (s *+ ((i == j) && (j != ord_max))))).
+  hess_rec (rops R) Hl m.+1 s = \det (H - s%:M).
+Proof. by move=> uh /row_major_reads rd; exact: hess_rec_acc_is_det. Qed.
+
+(* the list-of-rows twin (extracted oracle) *)
+Theorem hess_rec_rows_is_det m (H : 'M[R]_m.+1) (rows : seq (seq R)) (s : R) :
+  upper_hessenberg H -> rows_of rows H ->
+  hess_rec_rows (rops R) rows m.+1 s = \det (H - s%:M).
+Proof. by move=> uh /rows_of_reads rd; exact: hess_rec_acc_is_det. Qed.
+
+(* the DPE variant as coded: shift missing on the last diagonal entry *)
+Definition dcoded_mx m (H : 'M[R]_m.+1) (s : R) : 'M[R]_m.+1 :=
+  \matrix_(i, j) (H i j - (s *+ ((i == j) && (j != ord_max)))).
+
+Theorem dhess_coded_acc_is_det m (H : 'M[R]_m.+1) h (s : R) :
+  upper_hessenberg H -> reads h H ->
+  dhess_rec_coded_acc (rops R) h m.+1 s = \det (dcoded_mx H s).
 Proof.
-move=> uh rm; rewrite /dhess_rec_coded /= nthdE.
-have hz : forall i j, (j.+1 < i)%N -> (i < m.+1)%N -> hsf m.+1 Hl s i j = 0.
-  move=> i j ji im.
-  have jm : (j < m.+1)%N by apply: ltn_trans im; apply: ltn_trans ji.
-  rewrite (hsf_mx s (Ordinal im) (Ordinal jm) rm) !mxE (uh _ _ ji) /=.
-  by rewrite -val_eqE /= gtn_eqF ?mulr0n ?subr0 // (ltn_trans _ ji).
-rewrite (loop_det hz) ?size_mkvec //.
+move=> uh rd; rewrite /dhess_rec_coded_acc /= nthdE.
+rewrite (loop_det (hsf_hess s uh rd)) ?size_mkvec //.
 congr (\det _); apply/matrixP => i j; rewrite !mxE.
 case: ltnP => jm.
-  rewrite (hsf_mx s i j rm) !mxE; congr (_ - _).
+  rewrite (hsf_mx s i j rd) !mxE; congr (_ - _).
   have -> : j != ord_max by rewrite -val_eqE /= ltn_eqF.
   by rewrite andbT.
 have jE : j = ord_max by apply: val_inj; apply/eqP; rewrite eqn_leq jm -ltnS ltn_ord.
-rewrite nth_mkvec ?ltn_ord // add0n /elem nthdE jE /= rm eqxx andbF mulr0n subr0.
-by [].
+rewrite nth_mkvec ?ltn_ord // add0n jE /= (rd i ord_max) eqxx andbF.
+by rewrite mulr0n subr0.
 Qed.
+
+Theorem dhess_coded_is_det m (H : 'M[R]_m.+1) (Hl : seq R) (s : R) :
+  upper_hessenberg H -> row_major Hl H ->
+  dhess_rec_coded (rops R) Hl m.+1 s = \det (dcoded_mx H s).
+Proof. by move=> uh /row_major_reads rd; exact: dhess_coded_acc_is_det. Qed.
+
+Theorem dhess_coded_rows_is_det m (H : 'M[R]_m.+1) (rows : seq (seq R)) (s : R) :
+  upper_hessenberg H -> rows_of rows H ->
+  dhess_rec_coded_rows (rops R) rows m.+1 s = \det (dcoded_mx H s).
+Proof. by move=> uh /rows_of_reads rd; exact: dhess_coded_acc_is_det. Qed.
 
 End Main.
